@@ -133,12 +133,16 @@ CHECKS = {
                            G("deploy-n3", "^TestC13Deploy$", 1, 3, env=dict(VERIF_C13_N="3"), shrinktime="5s", timeout="20m"),
                            G("deploy-n4", "^TestC13Deploy$", 1, 4, env=dict(VERIF_C13_N="4"), shrinktime="5s", timeout="20m"),
                            G("deploy-churn", "^TestC13Deploy$", 1, 2, env=dict(VERIF_C13_N="4,5", VERIF_C13_SHAPE="churn"), shrinktime="5s", timeout="20m"),
-                           G("deploy-expiry-churn", "^TestC13Deploy$", 1, 3, env=dict(VERIF_C13_N="4,5,6", VERIF_C13_SHAPE="expiry-churn"), shrinktime="5s", timeout="20m")]),
+                           G("deploy-expiry-churn", "^TestC13Deploy$", 1, 3, env=dict(VERIF_C13_N="4,5,6", VERIF_C13_SHAPE="expiry-churn"), shrinktime="5s", timeout="20m"),
+                           G("deploy-multi-cancel", "^TestC13Deploy$", 1, 3, env=dict(VERIF_C13_N="2,3,4", VERIF_C13_SHAPE="multi-cancel"), shrinktime="5s", timeout="20m"),
+                           G("deploy-late", "^TestC13Deploy$", 1, 2, env=dict(VERIF_C13_N="2,3,4", VERIF_C13_SHAPE="late"), shrinktime="5s", timeout="20m")]),
         thorough=dict(groups=[E("funds-exhaustive", "^TestC13FundsExhaustive$"), E("window-enumerated", "^TestC13WindowEnumerated$"), G("helpers-random", "^TestC13HelpersRandom$", 100000, 4),
                               E("regressions", "^TestC13Regressions$", 5, timeout="20m"),
                               G("deploy-small", "^TestC13Deploy$", 20, 6, env=dict(VERIF_C13_N="1,2,3,4"), shrinktime="60s", timeout="120m"),
                               G("deploy-large", "^TestC13Deploy$", 8, 6, env=dict(VERIF_C13_N="5,6,7"), shrinktime="60s", timeout="120m"),
                               G("deploy-churn", "^TestC13Deploy$", 6, 4, env=dict(VERIF_C13_N="4,5,6,7", VERIF_C13_SHAPE="churn"), shrinktime="60s", timeout="120m"),
-                              G("deploy-expiry-churn", "^TestC13Deploy$", 5, 6, env=dict(VERIF_C13_N="4,5,6,7", VERIF_C13_SHAPE="expiry-churn"), shrinktime="60s", timeout="120m")]),
+                              G("deploy-expiry-churn", "^TestC13Deploy$", 5, 6, env=dict(VERIF_C13_N="4,5,6,7", VERIF_C13_SHAPE="expiry-churn"), shrinktime="60s", timeout="120m"),
+                              G("deploy-multi-cancel", "^TestC13Deploy$", 20, 10, env=dict(VERIF_C13_N="2,3,4,5,7", VERIF_C13_SHAPE="multi-cancel"), shrinktime="60s", timeout="120m"),
+                              G("deploy-late", "^TestC13Deploy$", 8, 6, env=dict(VERIF_C13_N="2,3,4,5,7", VERIF_C13_SHAPE="late"), shrinktime="60s", timeout="120m")]),
     ),
 }
